@@ -1129,8 +1129,6 @@ where
               ack_wait_sender,
             };
             // The command queue is full. Writer wakes us when it has made room.
-            #[cfg(rustdds_verif)]
-            crate::verif::sched::point("AsyncWait.full.before_store_waker");
             *writer.cc_upload_waker.lock().unwrap() = Some(cx.waker().clone());
             Poll::Pending
           }
